@@ -156,6 +156,27 @@ def createF (rq : Nat → Bool → RSt → RSt × (Handle ⊕ Exc)) (rx : Handle
     | some ex => releaseAllWith rx r.2.1.reverse r1.1 (some ex)
     | none => (r1.1.setMgr c { r1.1.mgr c with inst := some o, latch := false, built := r.2.1 }, none)
 
+/-- reset: "it will be torn down and re-initialized" -/
+def resetStep (td : Nat → RSt → RR) (c : Nat) (reset : Bool) (s : RSt) : RR :=
+  if s.alive c && reset then td c s else (s, none)
+
+/-- "If no instance exists, one will be created." -/
+def ensureStep (cr : Nat → RSt → RR) (c : Nat) (s : RSt) : RR :=
+  if !s.alive c then cr c s else (s, none)
+
+/-- the cached instance is handed out unless it is held exclusively: "Any future request() while
+    this one is active is forbidden and will fail." -/
+def admitStep (dep : Bool) (c : Nat) (excl roe : Bool) (s : RSt) : RSt × (Handle ⊕ Exc) :=
+  let m := s.mgr c
+  match m.inst with
+  | none => let r := s.newExc .ctx; (r.1, .inr r.2)
+  | some o =>
+    if m.latch then let r := s.newExc .ctx; (r.1, .inr r.2) else
+    let s := s.setMgr c { m with holders := m.holders + 1, latch := excl }
+    let s := if s.order.contains c then s else { s with order := s.order ++ [c] }
+    let s := s.log (.yielded dep c o)
+    (s, .inl { cls := c, excl := excl, roe := roe, dep := dep })
+
 /-- `ctx.request(c, reset=, exclusive=, reset_on_error=)` -/
 def requestF (td cr : Nat → RSt → RR) (dep : Bool) (c : Nat) (reset excl : Bool)
     (roe : Option Bool) (s : RSt) : RSt × (Handle ⊕ Exc) :=
@@ -165,27 +186,14 @@ def requestF (td cr : Nat → RSt → RR) (dep : Bool) (c : Nat) (reset excl : B
     let r := s.newExc .ctx
     (r.1, .inr r.2)
   else
-  -- reset: "it will be torn down and re-initialized"
-  let r0 : RR := if s.alive c && reset then td c s else (s, none)
+  let r0 := resetStep td c reset s
   match r0.2 with
   | some ex => (r0.1, .inr ex)
   | none =>
-  -- "If no instance exists, one will be created."
-  let r1 : RR := if !r0.1.alive c then cr c r0.1 else (r0.1, none)
+  let r1 := ensureStep cr c r0.1
   match r1.2 with
   | some ex => (r1.1, .inr ex)
-  | none =>
-  let s := r1.1
-  let m := s.mgr c
-  match m.inst with
-  | none => let r := s.newExc .ctx; (r.1, .inr r.2)
-  | some o =>
-    -- exclusive: "Any future request() while this one is active is forbidden and will fail."
-    if m.latch then let r := s.newExc .ctx; (r.1, .inr r.2) else
-    let s := s.setMgr c { m with holders := m.holders + 1, latch := excl }
-    let s := if s.order.contains c then s else { s with order := s.order ++ [c] }
-    let s := s.log (.yielded dep c o)
-    (s, .inl { cls := c, excl := excl, roe := roe, dep := dep })
+  | none => admitStep dep c excl roe r1.1
 
 structure Ops where
   teardown : Nat → RSt → RR
